@@ -369,7 +369,7 @@ func init() {
 			if tier == "thorough" {
 				return []*engine.Scenario{mk("c07-packing", []int{4, 2, 0, 2, 1}, 8)}
 			}
-			return []*engine.Scenario{mk("c07-packing", []int{3, 1, 0, 2, 1}, 6)}
+			return []*engine.Scenario{mk("c07-packing", []int{3, 1, 0, 2, 1}, 5)}
 		},
 		Assumptions: []string{
 			"seed: D0 staked on V0,V1,V2 (aaa) and V0,V1 (bbb), D1 on V0,V2 (aaa); take rate 0 so that share prices move only through slashes",
